@@ -30,6 +30,9 @@ let kind_of s = match s with
 let kind_str = function
   | KPriority -> "0" | KMessageID -> "1" | KNodeID -> "2" | KBitMask -> "3" | KUnknown -> "u"
 
+(* ArgumentError.Name of a refused InsertOperation / RemoveOperation, in the order the code checks *)
+let err_flag = function ErrFrom -> "Efrom" | ErrLength -> "Elength" | ErrOpIndex -> "EopIndex"
+
 let ops_str ops =
   if ops = [] then "-"
   else String.concat "," (List.map (fun o -> Printf.sprintf "%s.%s.%s" (kind_str o.op_kind) (zs o.op_from) (zs o.op_len)) ops)
@@ -55,7 +58,7 @@ let run_b edits_s triples_s =
   let eobs = List.map (fun e ->
       match apply_edit !ops e with
       | Ok l -> ops := l; "K|" ^ ops_str l
-      | Err _ -> "E|" ^ ops_str !ops) edits in
+      | Err er -> err_flag er ^ "|" ^ ops_str !ops) edits in
   let cobs = List.map (fun t ->
       match String.split_on_char ':' t with
       | [p; m; n] ->
@@ -66,40 +69,48 @@ let run_b edits_s triples_s =
       | _ -> failwith "bad triple") (fields triples_s) in
   String.concat "/" eobs ^ "#" ^ String.concat "/" cobs
 
-let run_w ids npool wops_s obs_s =
-  let mid, nid = match String.split_on_char ':' ids with [a; b] -> cz a, cz b | _ -> failwith "bad ids" in
+
+(* the model predicts every refusal (`accepted`); nothing is copied from the implementation *)
+let run_w ids npool wops_s =
+  let mid, nid, sib, n2 = match String.split_on_char ':' ids with
+    | [a; b; c; d] -> cz a, cz b, cz c, cz d
+    | _ -> failwith "bad ids" in
   let pool = List.init (int_of_string npool) (fun _ -> []) in
-  let w = ref (init_world mid nid pool) in
-  let impl_flags = List.map (fun o -> String.sub o 0 1) (List.filter (fun x -> x <> "") (String.split_on_char '/' obs_s)) in
+  let w = ref (init_world mid nid sib n2 pool) in
   let toks = fields wops_s in
-  let flags = if List.length impl_flags = List.length toks then impl_flags else List.map (fun _ -> "K") toks in
-  let obs = List.map2 (fun tok iflag ->
+  let obs = List.map (fun tok ->
       let parts = String.split_on_char ':' tok in
-      let flag =
+      let nat s = nat_of_int (int_of_string s) in
+      let o, edit_flag =
         match parts with
         | "Ed" :: i :: rest ->
-          let i = nat_of_int (int_of_string i) in
           let e = parse_edit ',' (String.concat ":" rest) in
-          let b = nth i !w.w_builders [] in
-          let fl = (match apply_edit b e with Ok _ -> "K" | Err _ -> "E") in
-          w := wstep !w (WEdit (i, e)); fl
-        | _ when iflag = "E" -> "E"   (* refused by the implementation: no state change on either side *)
-        | ["P"; v] -> w := wstep !w (WSetPriority (cz v)); "K"
-        | ["S"; v] -> w := wstep !w (WSetStatic (cz v)); "K"
-        | ["D"; v] -> w := wstep !w (WUpdateID (cz v)); "K"
-        | ["N"; v] -> w := wstep !w (WNodeID (cz v)); "K"
-        | ["At"] -> w := wstep !w WAttach; "K"
-        | ["De"] -> w := wstep !w WDetach; "K"
-        | ["Ba"] -> w := wstep !w WBusAdd; "K"
-        | ["Br"] -> w := wstep !w WBusRemove; "K"
-        | ["DeA"] -> w := wstep !w WDetachAll; "K"
-        | ["BrA"] -> w := wstep !w WBusRemoveAll; "K"
-        | ["Ri"] -> w := wstep !w WRemoveInterface; "K"
-        | ["Na"] | ["Nr"] | ["Ba2"] | ["Br2"] | ["SbB"; _] -> w := wstep !w WFrame; "K"
-        | ["Sb"; i] -> w := wstep !w (WSetBuilder (nat_of_int (int_of_string i))); "K"
+          let b = nth (nat i) !w.w_builders [] in
+          WEdit (nat i, e), Some (match apply_edit b e with Ok _ -> "K" | Err er -> err_flag er)
+        | ["P"; v] -> WSetPriority (cz v), None
+        | ["S"; v] -> WSetStatic (cz v), None
+        | ["D"; v] -> WUpdateID (cz v), None
+        | ["N"; v] -> WNodeID (cz v), None
+        | ["At"] -> WAttach, None
+        | ["De"] -> WDetach, None
+        | ["DeA"] -> WDetachAll, None
+        | ["Ba"] -> WBusAdd, None
+        | ["Br"] -> WBusRemove, None
+        | ["BrA"] -> WBusRemoveAll, None
+        | ["Ri"] -> WRemoveInterface, None
+        | ["Na"] -> WNetAdd, None
+        | ["Nr"] -> WNetRemove, None
+        | ["Ba2"] -> WBusAdd2, None
+        | ["Br2"] -> WBusRemove2, None
+        | ["SbB"; i] -> WSetBuilderB (nat i), None
+        | ["Sb"; i] -> WSetBuilder (nat i), None
         | _ -> failwith ("bad wop " ^ tok) in
+      let flag = match edit_flag with
+        | Some f -> f
+        | None -> if accepted !w o then "K" else "E" in
+      w := wstep !w o;
       Printf.sprintf "%s:%s:%s:%s:%d:%s" flag (zs (world_can_id !w)) (zs !w.w_id) (zs !w.w_prio)
-        (if !w.w_has_static then 1 else 0) (zs !w.w_node_id)) toks flags in
+        (if !w.w_has_static then 1 else 0) (zs !w.w_node_id)) toks in
   (* the save / load leg: the message is saved iff it is attached to an interface that is on the
      bus, and then keeps its CAN-ID *)
   let loaded = if !w.w_attached && !w.w_on_bus then zs (world_can_id !w) else "-" in
@@ -115,10 +126,10 @@ let () =
         match String.split_on_char ';' line with
         | ["B"; e; t; obs] -> obs, run_b e t
         | ["W"; ids; np; ops; obs; l] ->
-          let mobs, mloaded = run_w ids np ops obs in
+          let mobs, mloaded = run_w ids np ops in
           if l = "L=skip" || l = "L=default-builder-edits-not-saved" then obs, mobs
           else obs ^ ";" ^ l, mobs ^ ";L=" ^ mloaded
-        | ["W"; ids; np; ops; obs] -> obs, fst (run_w ids np ops obs)
+        | ["W"; ids; np; ops; obs] -> obs, fst (run_w ids np ops)
         | ["D"; obs] -> obs, ops_str default_ops
         | _ -> "PANIC-OR-MALFORMED", "(model is total)" in
       if impl <> model then begin
